@@ -1177,10 +1177,10 @@ func TestC28(t *testing.T) {
 	initStates(8)
 	client := remote.VerifOfflineClient(newState())
 
-	r.ForEach("dirbuilder", r.Pick(400, 30000), 8, func(i int, rng *rand.Rand) {
+	r.ForEach("dirbuilder", r.Pick(1500, 60000), 8, func(i int, rng *rand.Rand) {
 		checkItems(r, client, i, genItems(rng), rng)
 	})
-	r.ForEach("targets", r.Pick(150, 6000), 4, func(i int, rng *rand.Rand) {
+	r.ForEach("targets", r.Pick(450, 15000), 4, func(i int, rng *rand.Rand) {
 		checkTarget(r, repo, i, rng)
 	})
 	r.RequireObserved("input_sets", "permutations_built", "directory_messages_checked", "roots_equal_to_reference", "input_sets_permuted_exhaustively",
